@@ -488,3 +488,42 @@ for _fn in ("initialize_full_optimization", "initialize_wat_optimization"):
                "pdb2pqr.hydrogens.structures:Water": Obj("pdb2pqr.hydrogens.structures:Water", atomlist=Items())},
         name=_fn, native=False,
     )
+
+
+# ---------------------------------------------------------------- optimize_hydrogens: nobody is left half-built
+# Whatever hydrogen bonds are or are not found, every optimisation object whose residue is not fixed is brought to its
+# final state: finalize() when it has no partner at all, complete() at the end of its network (complete() removes the
+# LP / FLIP placeholders and adds what is still missing - C03).
+def OPTOBJ(nm, fixed):
+    return Named(nm, Obj("pdb2pqr.hydrogens.structures:Water", hbonds=Items(),
+                         residue=Obj("pdb2pqr.aa:WAT", name=Const("HOH"), fixed=fixed),
+                         atomlist=Items(Obj("pdb2pqr.structures:Atom", name=Const("O"), hdonor=Const(1), hacceptor=Const(1)))))
+
+
+def n_for(fn, obj):
+    n = 0
+    for c in calls_of(fn):
+        if c.args['self'] is obj:
+            n = n + 1
+    return n
+
+
+contract(
+    "pdb2pqr.hydrogens:HydrogenRoutines.optimize_hydrogens", ["C03", "C14"],
+    params={"self": Obj("pdb2pqr.hydrogens:HydrogenRoutines", debumper=Obj("pdb2pqr.debump:Debump", cells=Obj("pdb2pqr.cells:Cells")),
+                        optlist=Items(OPTOBJ("o1", Const(0)), OPTOBJ("o2", Const(0)), OPTOBJ("o3", Const(1))),
+                        atomlist=Items(), resmap=DictOf())},
+    requires=[],
+    ensures=[
+        "n_for('complete', o1) == 1 and n_for('complete', o2) == 1",
+        "n_for('finalize', o1) == 1 and n_for('finalize', o2) == 1",
+        # a residue that is already fixed is left alone
+        "n_for('complete', o3) == 0 and n_for('finalize', o3) == 0",
+        # every neighbour query goes to this pass's own cell list
+        "forall(calls_of('get_near_cells'), lambda c: c.args['self'] is self.debumper.cells)",
+    ],
+    trace={"pdb2pqr.cells:Cells.get_near_cells": Items(), "pdb2pqr.hydrogens.structures:Water.finalize": None,
+           "pdb2pqr.hydrogens.structures:Water.complete": None,
+           "pdb2pqr.utilities:sort_dict_by_value": Items()},      # (sorted(key=lambda) - of an empty table here)
+    name="optimize_hydrogens.no_partners", native=False,
+)
